@@ -15,7 +15,7 @@ def run(rep):
     fw.standin(rep, 's_dbx.py', ['run', rep.seed, 6000 if q else 24000],
                'systematic small-scope database histories: repeated-variable and all-unbound patterns, non-ground facts, retract resumed after other operations',
                'e/2 over {a,b}: 5 databases x 7 patterns x 26 inner operations + random histories')
-    fw.standin(rep, 's_share.py', ['run', rep.seed, 600],
+    fw.standin(rep, 's_share.py', ['run', rep.seed, 760],
                'two simultaneously suspended uses of one non-ground fact (all interleavings) vs each use alone; compiled conjunction',
                '9 fact shapes x 9 constant choices x 5 schedules: exhaustive for this family')
     rep.notes.append('assert_fact stores fresh_copy(values) = rename(resolve(values)); Answer.match unifies with a fresh copy per use; '
